@@ -306,7 +306,12 @@ func (r *Runner) Attempt() bool {
 				e1 = st.Error()
 			})
 		}()
+		// the watchdog: a minute, and a second more for every thousand events of the
+		// history (the scale histories hold a million events and more)
 		limit := 60
+		for _, f := range r.h.Files {
+			limit += len(f.Events) / 1000
+		}
 		if o.HungAfter > 0 {
 			limit = o.HungAfter
 		}
